@@ -190,7 +190,22 @@ func Resume(
 
 		// Seek to the next section by skipping the block.
 		// The section length includes the CID, so subtract it.
-		if sectionOffset, err = v1r.Seek(int64(length)-int64(n), io.SeekCurrent); err != nil {
+		// Read the last byte of the block rather than seeking past it: seeking beyond the end of
+		// the file succeeds, and a section cut short by a crash would be indexed as if it were whole.
+		if remaining := int64(length) - int64(n); remaining > 0 {
+			if _, err = v1r.Seek(remaining-1, io.SeekCurrent); err != nil {
+				return err
+			}
+			if _, err = v1r.ReadByte(); err != nil {
+				if err == io.EOF {
+					err = io.ErrUnexpectedEOF
+				}
+				return fmt.Errorf("incomplete section at offset %d: %w", sectionOffset, err)
+			}
+		} else if remaining < 0 {
+			return fmt.Errorf("section at offset %d is shorter than its CID", sectionOffset)
+		}
+		if sectionOffset, err = v1r.Seek(0, io.SeekCurrent); err != nil {
 			return err
 		}
 	}
